@@ -1,1 +1,121 @@
-fn main(){}
+//! vsched: engine SCHED — preemption-bounded exhaustive exploration of real threads
+//! (`vsched <Cxx> [--tier quick|thorough] [--replay file]`).
+//! For C20 this binary decides the property and writes the evidence itself; for C03 / C01 it
+//! writes a partial report that the harness binary merges.
+mod runner;
+mod scen;
+mod sched;
+
+use runner::{Scenario, replay_scenario, run_scenario};
+use serde_json::json;
+use vcore::{Report, Tier};
+
+fn install_hooks() {
+    // H1/H7: yield points inside lock-free check-then-act sequences become scheduling points
+    grafeo_common::verif_hooks::set_yield_hook(Some(Box::new(|_tag| shuttle::thread::yield_now())));
+}
+
+fn run_all<O: Send + Sync + 'static>(scs: Vec<Scenario<O>>, bound: usize, cap: u64, rep: &mut Report, only: Option<&str>) {
+    for sc in scs {
+        if only.is_some_and(|o| o != sc.name) {
+            continue;
+        }
+        let name = sc.name;
+        let t0 = rep.elapsed_s();
+        let st = run_scenario(sc, bound, cap, rep);
+        eprintln!("{name}: bound {bound}: {} schedules, {} outcomes ({} sequential), max {} points, {:.1}s", st.schedules, st.outcomes, st.seq_outcomes, st.max_points, rep.elapsed_s() - t0);
+    }
+}
+
+fn main() {
+    let argv: Vec<String> = std::env::args().skip(1).collect();
+    if argv.is_empty() {
+        eprintln!("usage: vsched <Cxx> [--tier quick|thorough] [--replay file]");
+        std::process::exit(2);
+    }
+    let prop = argv[0].clone();
+    let args = vcore::parse_args(&argv[1..]);
+    vcore::quiet_panics();
+    install_hooks();
+    runner::install_deterministic_hashing();
+    let tier = args.tier;
+    if let Some(p) = args.replay.as_deref() {
+        let case = vcore::read_replay_case(p);
+        if case["engine"] != "SCHED" {
+            // not ours: let the harness binary replay it
+            std::process::exit(0);
+        }
+        let name = case["scenario"].as_str().unwrap_or("").to_string();
+        let choices: Vec<usize> = case["choices"].as_array().map(|a| a.iter().filter_map(|x| x.as_u64()).map(|x| x as usize).collect()).unwrap_or_default();
+        let bound = case["bound"].as_u64().unwrap_or(2) as usize;
+        let three = case["threads"].as_array().map_or(false, |t| t.len() >= 3);
+        let mut viols = None;
+        macro_rules! try_family {
+            ($f:expr) => {
+                for sc in $f {
+                    if sc.name == name && viols.is_none() {
+                        viols = Some(replay_scenario(sc, choices.clone(), bound));
+                    }
+                }
+            };
+        }
+        try_family!(scen::lpg_scenarios(three));
+        try_family!(scen::rdf_scenarios(three));
+        try_family!(scen::txm_scenarios(three));
+        try_family!(scen::bm_scenarios(three));
+        let Some(viols) = viols else { vcore::machinery_failure("unknown scenario in replay file") };
+        if viols.is_empty() {
+            println!("REPLAY property={prop}: no violation reproduced");
+            std::process::exit(0);
+        }
+        for v in &viols {
+            println!("REPLAY property={prop}: reproduced sig=[{}] :: {}", v.sig_string(), v.detail);
+        }
+        std::process::exit(1);
+    }
+    let only = args.rest.iter().position(|a| a == "--only").and_then(|i| args.rest.get(i + 1)).cloned();
+    let only = only.as_deref();
+    let mut rep = Report::new(&prop, tier, "model_checking");
+    rep.max_samples = 12;
+    let (bound, three, cap) = match tier {
+        Tier::Quick => (3usize, true, 400_000u64),
+        Tier::Thorough => (5usize, true, 8_000_000u64),
+    };
+    rep.rule = "engine SCHED: every interleaving (at lock-acquisition / yield-hook granularity) of each listed 2-3 thread scenario with at most `preemption_bound` preemptions is executed on the real code under a controlled scheduler; an evaluation is one complete schedule; distinct non-trivial = distinct (scenario, recorded outcome) pairs".into();
+    match prop.as_str() {
+        "C20" => {
+            run_all(scen::lpg_scenarios(false), bound, cap, &mut rep, only);
+            run_all(scen::rdf_scenarios(false), bound, cap, &mut rep, only);
+            run_all(scen::txm_scenarios(false), bound, cap, &mut rep, only);
+            run_all(scen::bm_scenarios(false), bound, cap, &mut rep, only);
+            if three {
+                let b3 = if tier == Tier::Quick { 2 } else { 3 }; // three-thread variants at a lower bound (schedule count grows fast)
+                run_all(scen::lpg_scenarios(true).into_iter().filter(|s| s.threads.len() == 3).collect(), b3, cap, &mut rep, only);
+                run_all(scen::rdf_scenarios(true).into_iter().filter(|s| s.threads.len() == 3).collect(), b3, cap, &mut rep, only);
+                run_all(scen::txm_scenarios(true), b3, cap, &mut rep, only);
+                run_all(scen::bm_scenarios(true).into_iter().filter(|s| s.threads.len() == 3).collect(), b3, cap, &mut rep, only);
+            }
+        }
+        "C03" => {
+            run_all(scen::txm_scenarios(false), bound, cap, &mut rep, only);
+            if three {
+                run_all(scen::txm_scenarios(true), if tier == Tier::Quick { 2 } else { 3 }, cap, &mut rep, only);
+            }
+        }
+        _ => {
+            eprintln!("vsched has no scenarios for {prop}");
+            std::process::exit(2);
+        }
+    }
+    rep.traces_validated = rep.evaluations;
+    rep.set("preemption_bound", json!(bound));
+    rep.assumptions.push("std atomics execute sequentially consistently under the controlled scheduler: weak-memory reorderings of Relaxed operations are outside this engine".into());
+    rep.assumptions.push("DashMap shard locks are not intercepted (audited: never held across a parking_lot acquisition); rayon/crossbeam code is not part of these scenarios".into());
+    if prop == "C20" {
+        std::process::exit(rep.finish());
+    }
+    let p = vcore::verif_root().join(format!("target/partials/{prop}.sched.json"));
+    rep.write_partial(&p);
+    println!("SCHED-PARTIAL property={prop} schedules={} written={}", rep.evaluations, p.display());
+    std::process::exit(0);
+}
